@@ -73,7 +73,7 @@ def main():
     ap.add_argument("--only", default="")
     ap.add_argument("--json", default="")
     a = ap.parse_args()
-    binary = os.path.join(V, "bin", "grpchanlint")
+    binary = os.environ.get("GRPCHANLINT_BIN", os.path.join(V, "bin", "grpchanlint"))
     pat = "*" if a.prop == "all" else a.prop
     files = sorted(glob.glob(os.path.join(V, "checker/selftest/variants", pat, "*.json")))
     if a.only:
